@@ -1,10 +1,10 @@
 (* C01 deep model, semantics: the ring reading of Model/RingEval.v extended, in this file, to the
    graphs emitted by [compile_graph] (Model/MpcCompile.v):
-   - the three custom gadgets AddMPC / SubtractMPC / <bilinear>MPC are read by their SPECIFICATION,
-     transcribed from CustomOperationBody::instantiate (mpc_arithmetic.rs:18, :86, :225 with
-     mixed_product :173 and private_product :197); that the instantiated gadget graphs compute
-     this is NOT proved here: it is tied by the T:ring obligations, which read the fully
-     instantiated and inlined output of compile_context;
+   - the custom gadgets AddMPC / SubtractMPC / <bilinear>MPC are read by a specification
+     [gadget_sem], transcribed from CustomOperationBody::instantiate (mpc_arithmetic.rs:18, :86,
+     :225 with mixed_product :173 and private_product :197); Proofs/MpcCompileGadgets.v proves that
+     the gadget bodies (Model/MpcCompile.v [gadget_body], tied literally to instantiate) evaluate
+     to it;
    - the operations apply_op lifts share-wise (Sum, CumSum, PermuteAxes, Get, GetSlice, Reshape) are
      abstract functions [lin o] on the ring, and Dot/Matmul/Gemm abstract functions [bil o]; the
      theorems assume additivity of these only.
@@ -25,6 +25,11 @@ Definition gadget_of_name (s : string) : option gadget :=
   if String.eqb s "GemmMPC-false-true" then Some (GBil (OGemm false true)) else
   if String.eqb s "GemmMPC-true-false" then Some (GBil (OGemm true false)) else
   if String.eqb s "GemmMPC-true-true" then Some (GBil (OGemm true true)) else None.
+
+(* the gadgets of the correctness theorem: AddMPC, SubtractMPC and the bilinear ones *)
+Definition is_bil (o : op) : bool := match o with OMultiply | ODot | OMatmul | OGemm _ _ => true | _ => false end.
+Definition elem_gadget (g : gadget) : bool :=
+  match g with GAdd | GSub => true | GBil o => is_bil o end.
 
 (* operations lifted share-wise by apply_op whose reading is an abstract additive map *)
 Definition is_lin_op (o : op) : bool :=
@@ -164,6 +169,14 @@ Section DeepEval.
   | inrel_pub fl v s c : inrel fl s c -> inrel (false :: fl) (v :: s) (v :: c)
   | inrel_priv fl x a b c0 s c : radd (radd a b) c0 = x -> inrel fl s c ->
                                  inrel (true :: fl) (RLeaf R x :: s) (T3 a b c0 :: c).
+
+  (* the value of a gadget argument has the shape of its type: three leaves for a share triple *)
+  Definition shape_ok (t : ty) (v : rval) : Prop :=
+    match t with
+    | TTuple _ => exists a b c, v = T3 a b c
+    | TScalar _ | TArray _ _ => exists x, v = RLeaf R x
+    | _ => False
+    end.
 
   (* the first input of the compiled graph when use_prf_for_mul: a triple of PRF keys (any values) *)
   Definition keys_input (use_mul : bool) (kv0 kv1 kv2 : rval) : list rval :=
